@@ -759,18 +759,19 @@ def _baseline(seed, version, size):
     """the generated document, written and read back without any fault injected: (adm, lxml root), or a list with one
     failure when the real code raises already here (so that it is not mistaken for the reaction to the fault)"""
     import lxml.etree
-    from ear.fileio.adm.xml import parse_string
+    from ear.fileio.adm.adm import ADM
+    from ear.fileio.adm.xml import load_axml_string
 
     try:
         adm, _ = docs.make_doc(seed, version, size)
         stage = "adm_to_xml"
         axml = axml_of(adm)
-        stage = "parse_string"
-        parse_string(axml)
+        stage = "load_axml_string"
+        load_axml_string(ADM(), axml, lookup_references=False)
     except Exception as e:
         st = locals().get("stage", "make_doc")
         det = {"exc": "%s: %s" % (type(e).__name__, str(e)[:400])}
-        if st == "parse_string":
+        if st == "load_axml_string":
             det["axml_written"] = axml.decode()[:3000]
         return [("unmodified-document-%s-raises" % st, det)]
     return adm, lxml.etree.fromstring(axml)
